@@ -194,7 +194,7 @@ func main() {
 	}
 	run := evid.New("C11", "fault_enumeration")
 	run.MaxVio = 60 // one replay file per signature; the catalogue is large, root causes are few
-	run.Rule("execution = (base conversation, <=1 deviation in quick / <=2 in thorough, server configuration); base conversations {play-tcp, play-udp, record-tcp, record-udp, http-tunnel GET+POST, websocket upgrade, describe with credentials, play-tcp-stalled = a TCP reader that stops reading once it plays (receive buffer 2 KiB, the harness writes 40 packets so that the server's writer blocks in a socket write) and then sends PAUSE, GET_PARAMETER, TEARDOWN; under TLS also play-tcp-secure and record-tcp-secure = RTP/SAVP with a well-formed KeyMgmt} as lists of raw requests/frames; deviation catalogue applied at EVERY applicable position: delete/duplicate/overflow(5000 bytes) each header, 300 extra headers, malformed header lines, CSeq / Content-Length / client_port / interleaved / ttl extremes, inconsistent Transport (mode, profile, multicast, protocol switch, lists, garbage), Session (other id, empty, 1000 chars), KeyMgmt garbage, Authorization garbage, Range garbage, request-line faults (method, URL, protocol), 20 invalid SDP bodies, reorder / pipeline / repeat / drop adjacent requests, interleaved frames (valid, unknown channel, length 0 / 65535, RTCP garbage) and binary garbage and responses and HTTP requests inserted at every position, response instead of request, splice of every prefix with every other conversation, tunnel faults (POST without GET, two POSTs, two GETs, cookie mismatch, invalid base64), WebSocket faults (bad handshakes, control/fragment/reserved/oversize frames), truncation of the byte stream at EVERY byte offset followed by close or by silence (quick: every offset once, endings alternating, every third offset for the two secure conversations; thorough: both endings, also with a second connection and under TLS); configurations: thorough = handlers {all, describeonly, nopause = everything but OnPause, norecord = no OnAnnounce/OnRecord} x UDP {on, off} x second well-behaved connection {absent, present} plus TLS {without, with second connection}, full catalogue in each; quick = the full catalogue in {all+UDP, all+noUDP+second} and every third deviation in {describeonly+UDP, all+UDP+TLS, describeonly+noUDP+second, nopause+UDP, norecord+UDP}; thorough adds two-deviation executions: every single deviation after which the hostile connection was still open, followed by a cut at every later step boundary (close / silence) or a frame (valid / unknown channel) / binary garbage / CSeq-less request / foreign Session id at every later position; non-trivial = the hostile connection's observable outcome (status list, point where the server closed it, sessions opened) differs from the undeviated conversation in the same configuration")
+	run.Rule("execution = (base conversation, <=1 deviation in quick / <=2 in thorough, server configuration); base conversations {play-tcp, play-udp, record-tcp, record-udp, http-tunnel GET+POST, websocket upgrade, describe with credentials, http-tunnel-burst = five rounds of one tunnel GET half followed by four POST halves with the same cookie written back to back without a barrier, play-tcp-stalled = a TCP reader that stops reading once it plays (receive buffer 2 KiB, the harness writes 40 packets so that the server's writer blocks in a socket write) and then sends PAUSE, GET_PARAMETER, TEARDOWN; under TLS also play-tcp-secure and record-tcp-secure = RTP/SAVP with a well-formed KeyMgmt} as lists of raw requests/frames; deviation catalogue applied at EVERY applicable position: delete/duplicate/overflow(5000 bytes) each header, 300 extra headers, malformed header lines, CSeq / Content-Length / client_port / interleaved / ttl extremes, inconsistent Transport (mode, profile, multicast, protocol switch, lists, garbage), Session (other id, empty, 1000 chars), KeyMgmt garbage, Authorization garbage, Range garbage, request-line faults (method, URL, protocol), 20 invalid SDP bodies, reorder / pipeline / repeat / drop adjacent requests, interleaved frames (valid, unknown channel, length 0 / 65535, RTCP garbage) and binary garbage and responses and HTTP requests inserted at every position, response instead of request, splice of every prefix with every other conversation, tunnel faults (POST without GET, two POSTs, two GETs, cookie mismatch, invalid base64), WebSocket faults (bad handshakes, control/fragment/reserved/oversize frames), truncation of the byte stream at EVERY byte offset followed by close or by silence (quick: every offset once, endings alternating, every third offset for the two secure conversations; thorough: both endings, also with a second connection and under TLS); configurations: thorough = handlers {all, describeonly, nopause = everything but OnPause, norecord = no OnAnnounce/OnRecord} x UDP {on, off} x second well-behaved connection {absent, present} plus TLS {without, with second connection}, full catalogue in each; quick = the full catalogue in {all+UDP, all+noUDP+second} and every third deviation in {describeonly+UDP, all+UDP+TLS, describeonly+noUDP+second, nopause+UDP, norecord+UDP}; thorough adds two-deviation executions: every single deviation after which the hostile connection was still open, followed by a cut at every later step boundary (close / silence) or a frame (valid / unknown channel) / binary garbage / CSeq-less request / foreign Session id at every later position; non-trivial = the hostile connection's observable outcome (status list, point where the server closed it, sessions opened) differs from the undeviated conversation in the same configuration")
 	run.Assume("quiescence barrier: after every write the harness waits until every library goroutine is blocked (sysx.Settle) and only then reads; virtual time moves only through Env.Advance; wall-clock time is the hang detector only")
 	run.Assume("after the last hostile byte virtual time advances by IdleTimeout+ReadTimeout+WriteTimeout+5 s (play-tcp-stalled: plus one WriteTimeout per step after the stall) in 4 steps; by then every hostile connection must have been closed by the server and every session it created must have ended (UDP sessions by their own timeout)")
 	run.Assume("the well-behaved clients speak RTP/AVP/TCP with interleaved ids 0-3 and follow the protocol (keep-alive every quarter of the timeouts); the hostile peer never learns their session ids, so taking over a foreign session is out of scope (C19)")
